@@ -178,6 +178,9 @@ def encode(job):
         res["twins"][qn] = rr
         if rr == "sat":
             res["twins"][qn + "_model"] = decode(s.model())
+    xs = common.xs_run(s, qs, res["verdicts"], (rule_name, collecting), ("accept_differs_from_spec", "foreign_failure"))
+    if xs:
+        res["xsolver"] = xs
     res["t_solve"] = time.time() - t1
     res["stats"] = {k: (round(v, 3) if isinstance(v, float) else v) for k, v in view.stats.items()}
     res["functions"] = sorted(view.functions)
@@ -247,6 +250,7 @@ def run(tier, only=None):
     from metapype.eml import rule as R
     rep = Report(PROP, tier, "PyBMC merged symbolic execution of _validate_attributes and the introspection helpers on a symbolic dict + z3 QF_BV")
     sd = common.seed()
+    common.xs_enable(tier)
     rules = [only] if only else list(R.rules_dict.keys())
     random.Random(sd).shuffle(rules)
     jobs = [(rn, coll, sd) for rn in rules for coll in (False, True)]
@@ -267,6 +271,7 @@ def run(tier, only=None):
             rep.inconclusive.append("%s: unsupported construct: %s" % (tag, r["unsupported"]))
             continue
         rep.functions.update(r["functions"])
+        common.xs_collect(rep, tag, r)
         rep.solver_time += r["t_solve"] + r["stats"].get("t_check", 0)
         for qn, v in list(r["verdicts"].items()) + [(k, v) for k, v in r["twins"].items() if not k.endswith("_model")]:
             rep.count(v)
